@@ -47,6 +47,22 @@ Theorem C01_toc_digest_covers_stream :
 Proof. exact toc_digest_covers_stream. Qed.
 Print Assumptions C01_toc_digest_covers_stream.
 
+(* New section readers after the layer was opened (metadata Clone, i.e. VerifiableReader.Cache(WithReader(sr')) as
+   layer.backgroundFetch issues it; holds for the code with patches/C01-fix-3.diff - before it the memory store's
+   Clone accepted any self-consistent TOC served by sr'): a clone only comes into being if the TOC file it read from
+   sr' hashes to the digest of the TOC the layer was opened with; so after a successful verification with d
+   anywhere in the history, the clone's tables were decoded from a stream hashing to d too. No injectivity of H is
+   assumed for that; the last conjunct says what injectivity on TOC streams would add: the very same tables. *)
+Theorem C01_clone_pins_toc :
+  forall H dec stream s0 os stream' T',
+    open_layer H dec stream = Some s0 ->
+    clone_layer H dec (exec H s0 os) stream' = Some T' ->
+    H stream' = H stream /\ dec stream' = Some T' /\
+    (forall d o, (o = VerifyTOC d \/ o = LVerify d) -> snd (step H (exec H s0 os) o) = OOk -> H stream' = d) /\
+    ((forall x y, H x = H y -> dec x = dec y) -> T' = s_toc (exec H s0 os)).
+Proof. exact clone_pins_toc. Qed.
+Print Assumptions C01_clone_pins_toc.
+
 (* The cache invariant: in every reachable state, unless an unverified (skip-verify mode) on-demand read accepted
    altered bytes [s_tainted] or a prefetch recorded a verification failure [s_lasterr], every chunk that is in the
    cache or held by a not yet committed cache writer hashes to a digest recorded in the TOC for its key. *)
